@@ -20,12 +20,17 @@ case "$cmd" in
     for p in "$@"; do git -C "$S/repo" apply "$p" || { echo "patch $p does not apply"; exit 2; }; done
     # reuse compiled third-party crates
     if [ -d /verif/sim/target ] && [ ! -d "$S/sim/target" ]; then cp -a /verif/sim/target "$S/sim/target"; fi
+    # never run a binary that was built against another tree: the copied
+    # executables go, only compiled third-party crates are reused
+    rm -f "$S/sim/target/release/simcheck" "$S/sim/target/release/e3http" "$S/sim/target/release/e4idb"
+    rm -rf "$S/sim/target/release/.fingerprint"/sim-* "$S/sim/target/release/.fingerprint"/e3http-* "$S/sim/target/release/.fingerprint"/e4idb-* "$S/sim/target/release/.fingerprint"/searchlite-*
     echo "$S"
     ;;
   run)
     shift 2
     mode="${1:-}"
     case "$mode" in http) pkg=e3http; bin=e3http;; idb) pkg=e4idb; bin=e4idb;; *) pkg=sim; bin=simcheck;; esac
+    rm -f "$S/sim/target/release/$bin"
     ( cd "$S/sim" && CARGO_NET_OFFLINE=true cargo build --release --offline -p "$pkg" 2>&1 | grep -E "^error" -A12 | head -40 )
     [ -x "$S/sim/target/release/$bin" ] || { echo "harness error: build failed"; exit 2; }
     cd "$S/out" && VERIF_ROOT="$S/out" "$S/sim/target/release/$bin" "$@"
